@@ -74,6 +74,19 @@ func (c *Ctx) listWriterDiscipline() {
 						return true
 					}
 				}
+				// a helper of this package: every string it can return must qualify
+				if sc := t.Call.StaticCallee(); sc != nil && len(sc.Blocks) > 0 && engine.RelPkg(P.OwnPkgPath(sc)) == "imap" {
+					rets := engine.Returns(sc)
+					if len(rets) == 0 {
+						break
+					}
+					for _, r := range rets {
+						if len(r.Results) != 1 || !rec(engine.ResultOf(r, 0), d+1) {
+							return false
+						}
+					}
+					return true
+				}
 			}
 			bad = valName(v) + " (" + v.String() + ")"
 			return false
